@@ -9,10 +9,15 @@ import (
 // history prefix that existed when it was taken: writes with sequence numbers
 // at or above the snapshot - wherever flushes and compactions have put them in
 // the levels - change nothing that a scan or a seek at the snapshot returns.
-func VerifHarness_C03_LaterWritesInvisible() {
-	N := 3
+func VerifHarness_C03_LaterWritesInvisible() { hLaterWritesInvisible(3) }
+
+// ... with the iterator built by the real DB.newIter (through the DB at that visible sequence
+// number or through a snapshot while later writes are visible), over stub tables
+func VerifHarness_C03_LaterWritesInvisibleDB() { hWithDB(func() { hLaterWritesInvisible(2) }) }
+
+func hLaterWritesInvisible(N int) {
 	if sym.Thorough() {
-		N = 4
+		N++
 	}
 	n := 2 + sym.Choose("n", N-1)
 	h := hHistory(n, hPointAndRangeKinds)
